@@ -20,7 +20,7 @@ def declare(rep):
 
 
 def run_config(ctx, rep, cfg, F):
-    S.run_ops(ctx, rep, cfg, F, ["intersection"], RULES, "struct", 1300)
+    S.run_ops(ctx, rep, cfg, F, ["intersection"], RULES, "struct", 600)
 
 
 def finalize(ctx, rep):
